@@ -659,6 +659,28 @@ func c12RunVanilla(p *vm.Program, row Row) (dec bool, failed bool) {
 	return b, false
 }
 
+// c12RescuedByOr reports whether a failing OR chain has a disjunct that evaluates to true on its own.
+// A failing comparison (NULL or incomparable operand) is not true, but it does not make the other
+// disjuncts false: TRUE OR <failing> is TRUE in SQL, and the engine's general path decides so since
+// its NULL-tolerant re-evaluation.  For single comparisons and AND chains a failure can never be
+// rescued, so an accepted failing row stays a violation there.
+func c12RescuedByOr(p c12Pred, row Row) bool {
+	if p.Join != "OR" {
+		return false
+	}
+	for i := range p.Parts {
+		one := c12Pred{Parts: p.Parts[i : i+1]}
+		v := c12Vanilla(one.render(nil, func(c string) string { return c }, "&&", "||", false))
+		if v == nil {
+			continue
+		}
+		if dec, failed := c12RunVanilla(v, c12CopyRow(row)); !failed && dec {
+			return true
+		}
+	}
+	return false
+}
+
 func c12CopyRow(row Row) Row {
 	cp := make(Row, len(row))
 	for k, v := range row {
@@ -741,7 +763,7 @@ func c12RunPkg(ctx *core.Ctx, ref core.CaseRef, r *rand.Rand, nrows int) {
 			dv, failed := c12RunVanilla(van, c12CopyRow(row))
 			if failed {
 				failing++
-				if df || dg {
+				if (df || dg) && !c12RescuedByOr(p, row) {
 					agg.add(core.Violation{Kind: "failure.accepts_row", Attrs: mk("value_type", typ, "range", rng),
 						Detail: fmt.Sprintf("expr-lang fails to evaluate %q on row %s, yet Evaluate accepted the row (shortcut text: %v, parenthesised: %v)", fast, shown, df, dg), Case: &vcase})
 				}
